@@ -22,7 +22,9 @@ from hypothesis import strategies as st
 from vlib.runner import Outcome
 
 ID = "C12"
-RULE = ("Hypothesis programs over 1-3 MersenneTwister streams (seeds from {0, 1, -1, -2**63, 2**64+1, 2**200} and "
+RULE = ("(plus 5% 'reseed' cases: one long-lived stream re-seeded step by step through StreamSeedUpdater / "
+        "SimpleStreamUpdater, incl. with the seed it already has: afterwards it must produce the sequence of a new "
+        "stream with the reported seed) Hypothesis programs over 1-3 MersenneTwister streams (seeds from {0, 1, -1, -2**63, 2**64+1, 2**200} and "
         "arbitrary ints; <=60 quick / <=150 thorough ops next_float / next_int(lo,hi) / next_bool / set_seed / reset / "
         "save(slot) / restore(slot, replay n); integer ranges single-value, negative, crossing zero, widths 2**53+-, "
         "2**64, up to 2**200 and a few beyond the float range). Metamorphic oracle: Twin (same program on a second, "
@@ -121,6 +123,14 @@ def strategy(tier):
             k = draw(st.integers(2, 4))
             return {"kind": "info", "objs": draw(st.lists(st.integers(0, 1), min_size=k, max_size=k)),
                     "draws": draw(st.lists(st.integers(0, 5), min_size=k, max_size=k))}
+        if which == 3:
+            # a long-lived stream re-seeded replication after replication by the library's updaters: whenever the
+            # stream reports seed s afterwards, it produces the sequence of a new stream created with s - also when
+            # the new seed equals the one it already had
+            tab = draw(st.lists(st.sampled_from([42, 42, 43, 7, 0, -5, 2 ** 70]), min_size=1, max_size=5))
+            steps = draw(st.lists(st.tuples(st.integers(0, 4), st.integers(0, 4)).map(list), min_size=2, max_size=6))
+            return {"kind": "reseed", "orig": draw(seed), "table": tab, "steps": steps,
+                    "updater": draw(st.sampled_from(["seeded", "simple"]))}
         if which == 0:
             return {"kind": "stub", "u": draw(ustub), "ranges": draw(st.lists(rng, min_size=1, max_size=12))}
         if which == 1:
@@ -593,6 +603,39 @@ def _run_info(case, out):
     out.label("info-objects=%d" % len(infos))
 
 
+def _run_reseed(case, out):
+    from pydsol.core.streams import MersenneTwister, StreamSeedUpdater, SimpleStreamUpdater
+    stream = MersenneTwister(case["orig"])
+    upd = StreamSeedUpdater({"s": list(case["table"])}) if case["updater"] == "seeded" else SimpleStreamUpdater()
+    ties = 0
+    drawn = 0
+    for r, n in case["steps"]:
+        if case["updater"] == "seeded":
+            r = r % len(case["table"])
+        before = stream.seed()
+        used = n_prev = drawn
+        try:
+            upd.update_seed("s", stream, r)
+        except Exception as e:
+            out.fail("raises:update_seed:" + type(e).__name__, {"r": r, "error": repr(e)})
+            return
+        sd = stream.seed()
+        if sd == before and used:
+            ties += 1
+        ref = MersenneTwister(sd)
+        got = [stream.next_float().hex() for _ in range(n)]
+        want = [ref.next_float().hex() for _ in range(n)]
+        drawn = n
+        if got != want:
+            out.fail("set_seed-fresh" if sd != before else "reseed-with-unchanged-seed",
+                     {"r": r, "seed": sd, "seed_before": before, "drawn_before": n_prev, "got": got[:2], "want": want[:2]})
+            return
+    if ties:
+        out.label("re-seeded-with-its-current-seed")
+    out.nontrivial = ties >= 1
+    out.label("updater=" + case["updater"])
+
+
 def run_case(case):
     out = Outcome()
     kind = case.get("kind", "prog")
@@ -607,6 +650,8 @@ def run_case(case):
         _run_cover(case, out, grid=True)
     elif kind == "info":
         _run_info(case, out)
+    elif kind == "reseed":
+        _run_reseed(case, out)
     else:
         raise ValueError("unknown case kind %r" % kind)
     return out
